@@ -19,6 +19,9 @@ TREE = [
     # files (not directories) whose NAME is that of an always-skipped directory: ordinary files of the project, judged like any other
     "src/build", "lib/venv", "docs/pkg.egg-info", "dist",
 ]
+# symbolic links inside the tree to files that live under OTHER rules: each is a file of the project at the place where it is found
+LINKS = {"src/linked_guide.md": "../docs/guide.md", "docs/linked_a.py": "../src/a.py", "lib/deep/linked_t.py": "../../tests/test_t.py", "tests/linked_util.ts": "../lib/util.ts"}
+TREE += sorted(LINKS)
 DIRS = ["src", "src/", "src/api", "src/api/v1", "tests", "lib", "/", "docs", "lib/deep"]
 PATTERNS = [r".*\.py$", r"^src/.*", r"test_.*\.py$", r".*\.(ts|tsx)$", r"(?i)readme", r"^[a-z_]+\.py$", r".*_api\.py$", r".*", r".*\.md$", r"^lib/", r"v1/"]
 BAD_PATTERNS = ["[", "(?P<", "*abc", "(unclosed", "a{2,1}"]
@@ -119,8 +122,15 @@ def exec_case(case):
         import yaml
         files["fp.yaml"] = yaml.safe_dump({"file-placement": rules})
         argv += ["--config", "../fp.yaml" if case.get("from_sub") else "fp.yaml"]
+    for lk in LINKS:
+        files.pop(lk)
     runner.write_tree(d, files)
+    import os as _os
+    for lk, tgt in LINKS.items():
+        _os.symlink(tgt, _os.path.join(d, lk))
     cwd, target = (d, ".") if not case.get("from_sub") else (d + "/src", "..")
+    if case.get("abs"):
+        target = d
     r = runner.cli(argv + [target], cwd)
     vs = r.violations()
     rows = None
@@ -144,7 +154,7 @@ def run(ctx):
     cases = []
     carriers = ["rules-inline", "yaml-hyphen", "yaml-underscore", "json", "config-opt"]
     for i in range(ctx.size(600, 6000)):
-        cases.append({"rules": gen_rules(rng), "carrier": carriers[i % len(carriers)], "from_sub": rng.random() < 0.15, "kind": "random"})
+        cases.append({"rules": gen_rules(rng), "carrier": carriers[i % len(carriers)], "from_sub": rng.random() < 0.15, "kind": "random", "abs": rng.random() < 0.2})
     cases.append({"rules": {}, "carrier": "rules-inline", "kind": "no-rules"})
     cases.append({"rules": {}, "carrier": "yaml-hyphen", "kind": "no-rules"})
     if not ctx.quick:
